@@ -1,8 +1,394 @@
 import Pycoin.Model.Sign
-namespace Pycoin.Sign
+import Pycoin.Proofs.SignDer
+/-!
+C05 — property theorems about the signer model (`Model/Sign.lean`).
 
-/-- low-S normalisation yields `2·s ≤ n` for `0 ≤ s ≤ n` -/
-theorem C05_lowS_le (n : Nat) (s : Int) (h0 : 0 ≤ s) (hn : s ≤ n) : 2 * lowS n s ≤ n ∧ 0 ≤ lowS n s := by
+* `C05_sig_canonical`, `C05_sig_passes_encoding_checks`, `C05_solver_emits_canonical`: what the signer emits is strict DER
+  (BIP66 `IsValidSignatureEncoding` of the consensus specification), low-S (`IsLowDERSignature`'s lax parse + `s ≤ n/2`),
+  and ends with the requested hash-type byte (with the fork-id bit on fork-id coins);
+* `C05_lowS_preserves_verify_partial`;
+* `C05_sign_frame`, `C05_sign_frame_empty`: nothing but script and witness of the chosen, not yet valid inputs changes.
+-/
+namespace Pycoin.Sign
+open Pycoin Pycoin.Spec.Consensus
+
+/-! ## canonical signatures -/
+
+/-- strict DER, low S, last byte = the hash type -/
+def Canonical (ht : Nat) (sig : Bytes) : Prop :=
+  isValidSignatureEncoding sig = true ∧ checkLowS sig.dropLast = true ∧ sig.getLast? = some (UInt8.ofNat ht)
+
+theorem lowS_range {n : Nat} {s : Int} (h1 : 1 ≤ s) (h2 : s < n) : 1 ≤ lowS n s ∧ lowS n s < n ∧ 2 * lowS n s ≤ n := by
   unfold lowS; split <;> omega
+
+/-- **Canonical signatures.**  For `r, s` in `[1, n−1]` (what ECDSA signing returns, C01) and a one-byte hash type, the
+blob the signer emits — `sigencode_der(r, low-S(s)) + bytes([ht])` — is accepted by the consensus rule
+`IsValidSignatureEncoding`, passes `IsLowDERSignature`'s `CheckLowS`, ends with the hash-type byte, and Core's lax parser
+reads `(r, low-S(s))` back from it. -/
+theorem C05_sig_canonical (r s : Int) (ht : Nat) (hr1 : 1 ≤ r) (hr2 : r < secp256k1N) (hs1 : 1 ≤ s)
+    (hs2 : s < secp256k1N) (hht : ht ≤ 255) :
+    ∃ sig, binarySignature r (lowS secp256k1N s) ht = .ok sig ∧ Canonical ht sig ∧
+      laxDerParse sig.dropLast = some (r.toNat, (lowS secp256k1N s).toNat) ∧ 2 * lowS secp256k1N s ≤ secp256k1N := by
+  obtain ⟨l1, l2, l3⟩ := lowS_range hs1 hs2
+  generalize lowS secp256k1N s = s' at *
+  have hN := secp256k1N_lt
+  obtain ⟨rn, rfl⟩ : ∃ rn : Nat, r = rn := ⟨r.toNat, by omega⟩
+  obtain ⟨sn, rfl⟩ : ∃ sn : Nat, s' = sn := ⟨s'.toNat, by omega⟩
+  have a1 : 1 ≤ rn := by omega
+  have a2 : rn < secp256k1N := by omega
+  have a3 : 1 ≤ sn := by omega
+  have a4 : sn < secp256k1N := by omega
+  refine ⟨sigLayout (derBody rn) (derBody sn) ++ [UInt8.ofNat ht], ?_, ⟨?_, ?_, ?_⟩, ?_, l3⟩
+  · unfold binarySignature
+    rw [sigencodeDer_eq a1 (by omega) a3 (by omega)]
+    simp only []
+    rw [if_neg (by omega)]
+  · have := strict_of_layout (derBody rn) (derBody sn) (UInt8.ofNat ht) (goodBody_derBody a1 (by omega))
+      (goodBody_derBody a3 (by omega))
+    simpa [sigLayout] using this
+  · rw [List.dropLast_concat]
+    unfold checkLowS
+    rw [laxDerParse_sigLayout a1 a2 a3 a4]
+    simp only [decide_eq_true_eq]
+    omega
+  · simp
+  · rw [List.dropLast_concat, laxDerParse_sigLayout a1 a2 a3 a4]
+    simp
+
+/-- the six standard hash types -/
+def standardHashType (ht : Nat) : Prop := ht = 1 ∨ ht = 2 ∨ ht = 3 ∨ ht = 0x81 ∨ ht = 0x82 ∨ ht = 0x83
+
+theorem isDefinedHashtype_of_last {sig : Bytes} {ht : Nat} (h : sig.getLast? = some (UInt8.ofNat ht))
+    (hs : standardHashType ht) : isDefinedHashtypeSignature sig = true := by
+  unfold isDefinedHashtypeSignature
+  rw [h]
+  rcases hs with h | h | h | h | h | h <;> subst h <;> decide
+
+/-- a canonical signature with a standard hash type passes `CheckSignatureEncoding` under every flag set; without STRICTENC
+(the fork-id coins' standard set: the fork-id bit is not a "defined" hash type) whatever the hash-type byte is -/
+theorem C05_sig_passes_encoding_checks {sig : Bytes} {ht : Nat} (hc : Canonical ht sig) (flags : Flags)
+    (hht : standardHashType ht ∨ flags.strictenc = false) : checkSignatureEncoding sig flags = none := by
+  obtain ⟨h1, h2, h3⟩ := hc
+  unfold checkSignatureEncoding
+  have hne : sig.isEmpty = false := by
+    cases sig with
+    | nil => simp at h3
+    | cons a l => rfl
+  rcases hht with hs | hs
+  · simp [hne, h1, h2, isDefinedHashtype_of_last h3 hs]
+  · simp [hne, h1, h2, hs]
+
+/-- on fork-id coins the hash type the solver works with has the fork-id bit, and keeps the ANYONECANPAY bit and the
+base type of what was requested -/
+theorem C05_forkid_forced (ht : Option Nat) :
+    effectiveHashType true ht &&& 0x40 = 0x40 ∧
+    effectiveHashType true ht &&& 0x80 = ht.getD 1 &&& 0x80 ∧
+    effectiveHashType true ht &&& 0x1f = ht.getD 1 &&& 0x1f ∧
+    effectiveHashType false ht = ht.getD 1 := by
+  simp only [effectiveHashType, Gen.Sign.SIGHASH_FORKID, Gen.Sign.SIGHASH_ALL, if_true]
+  have h64 : ∀ i, Nat.testBit 64 i = decide (i = 6) := by
+    intro i
+    have : (64 : Nat) = 2 ^ 6 := rfl
+    rw [this, Nat.testBit_two_pow]; simp [eq_comm]
+  have h128 : ∀ i, Nat.testBit 128 i = decide (i = 7) := by
+    intro i
+    have : (128 : Nat) = 2 ^ 7 := rfl
+    rw [this, Nat.testBit_two_pow]; simp [eq_comm]
+  have h31 : ∀ i, Nat.testBit 31 i = decide (i < 5) := by
+    intro i
+    have : (31 : Nat) = 2 ^ 5 - 1 := rfl
+    rw [this, Nat.testBit_two_pow_sub_one]
+  refine ⟨?_, ?_, ?_, by simp⟩
+  · apply Nat.eq_of_testBit_eq
+    intro i
+    simp only [Nat.testBit_and, Nat.testBit_or, h64]
+    by_cases hi : i = 6 <;> simp [hi]
+  · apply Nat.eq_of_testBit_eq
+    intro i
+    simp only [Nat.testBit_and, Nat.testBit_or, h64, h128]
+    by_cases hi : i = 7 <;> simp [hi]
+  · apply Nat.eq_of_testBit_eq
+    intro i
+    simp only [Nat.testBit_and, Nat.testBit_or, h64, h31]
+    by_cases hi : i < 5
+    · have : i ≠ 6 := by omega
+      simp [hi, this]
+    · simp [hi]
+
+/-! ### every signature the solver emits is canonical -/
+
+theorem mem_insertSig (a b : Int × Bytes) (l : List (Int × Bytes)) : b ∈ insertSig a l ↔ b = a ∨ b ∈ l := by
+  induction l with
+  | nil => simp [insertSig]
+  | cons c r ih =>
+    simp only [insertSig]
+    split
+    · simp
+    · simp [ih]; constructor
+      · rintro (h | h | h) <;> simp [h]
+      · rintro (h | h | h) <;> simp [h]
+
+theorem mem_sortSigs (b : Int × Bytes) (l : List (Int × Bytes)) : b ∈ sortSigs l ↔ b ∈ l := by
+  induction l with
+  | nil => simp [sortSigs]
+  | cons a r ih => simp [sortSigs, mem_insertSig, ih]
+
+theorem findSignatures_subset (C : Crypto) (digest : Digest) (maxSigs : Nat) (secKeys : List Bytes) :
+    ∀ (blobs : List Bytes) (seen : Nat) {sigs : List (Int × Bytes)} {solved : List Bytes},
+      findSignatures C digest maxSigs secKeys blobs seen = .ok (sigs, solved) → ∀ p ∈ sigs, p.2 ∈ blobs := by
+  intro blobs
+  induction blobs with
+  | nil => intro seen sigs solved h; simp [findSignatures] at h; simp [h.1]
+  | cons b r ih =>
+    intro seen sigs solved h p hp
+    simp only [findSignatures] at h
+    split at h
+    · simp at h; rw [h.1] at hp; simp at hp
+    · split at h
+      · exact List.mem_cons_of_mem _ (ih _ h p hp)
+      · split at h
+        · cases h
+        · split at h
+          · cases h
+          · rename_i sigs' solved' hrec
+            split at h
+            · simp at h; rw [← h.1] at hp
+              exact List.mem_cons_of_mem _ (ih _ hrec p hp)
+            · simp at h
+              rw [← h.1] at hp
+              rcases List.mem_cons.mp hp with hp | hp
+              · rw [hp]; simp
+              · exact List.mem_cons_of_mem _ (ih _ hrec p hp)
+
+/-- hypothesis on the ECDSA parameter: signing returns `r, s` in `[1, n−1]` (C01's `sign_verifies`, range half) -/
+def SignInRange (C : Crypto) : Prop :=
+  ∀ d z r s, C.sign d z = .ok (r, s) → 1 ≤ r ∧ r < C.order ∧ 1 ≤ s ∧ s < C.order
+
+theorem signLoop_mem (C : Crypto) (hN : C.order = secp256k1N) (hC : SignInRange C) (lookup : Lookup) (digest : Digest)
+    (ht nSigs : Nat) (solved : List Bytes) :
+    ∀ (todo : List (Nat × Bytes)) (ex res : List (Int × Bytes)),
+      signLoop C lookup digest ht nSigs solved todo ex = .ok res → ∀ p ∈ res, p ∈ ex ∨ Canonical ht p.2 := by
+  intro todo
+  induction todo with
+  | nil => intro ex res h p hp; simp [signLoop] at h; subst h; exact Or.inl hp
+  | cons t r ih =>
+    intro ex res h p hp
+    obtain ⟨order, k⟩ := t
+    simp only [signLoop] at h
+    split at h
+    · exact ih _ _ h p hp
+    · split at h
+      · simp at h; subst h; exact Or.inl hp
+      · split at h
+        · split at h
+          · cases h
+          · split at h
+            · cases h
+            · rename_i z _ r' s' hsign
+              split at h
+              · cases h
+              · rename_i bin hbin
+                obtain ⟨q1, q2, q3, q4⟩ := hC _ _ _ _ hsign
+                rw [hN] at q2 q4 hbin
+                have hht : ht ≤ 255 := by
+                  unfold binarySignature at hbin
+                  split at hbin
+                  · cases hbin
+                  · split at hbin
+                    · cases hbin
+                    · omega
+                obtain ⟨sig, hsig, hcan, _⟩ := C05_sig_canonical r' s' ht q1 q2 q3 q4 hht
+                rw [hsig] at hbin
+                cases hbin
+                rcases ih _ _ h p hp with hm | hm
+                · rcases List.mem_append.mp hm with hm | hm
+                  · exact Or.inl hm
+                  · simp at hm; subst hm; exact Or.inr hcan
+                · exact Or.inr hm
+        · split at h
+          · cases h
+          · exact ih _ _ h p hp
+
+/-- **Every emitted signature is canonical.**  Whatever `signing_solver` returns for a signature variable is an item that
+was already in the input's script or witness (re-used because it verifies for a listed key), the placeholder, or a fresh
+signature that is strict DER, low-S and carries the requested hash type. -/
+theorem C05_solver_emits_canonical (C : Crypto) (hN : C.order = secp256k1N) (hC : SignInRange C) (lookup : Lookup)
+    (digest : Digest) (secKeys : List Bytes) (nSigs : Nat) (existing : List Bytes) (ht : Nat) (placeholder : Option Bytes)
+    (out : List (Option Bytes))
+    (h : signingSolver C lookup digest secKeys nSigs existing ht placeholder = .ok out) :
+    ∀ b, some b ∈ out → b ∈ existing ∨ placeholder = some b ∨ Canonical ht b := by
+  intro b hb
+  unfold signingSolver at h
+  split at h
+  · cases h
+  · rename_i found solved hfind
+    split at h
+    · cases h
+    · rename_i ex hloop
+      simp only [Except.ok.injEq] at h
+      subst h
+      have hb' := List.mem_of_mem_take hb
+      rcases List.mem_append.mp hb' with hb' | hb'
+      · simp only [List.mem_map] at hb'
+        obtain ⟨p, hp, hpb⟩ := hb'
+        rw [mem_sortSigs] at hp
+        simp at hpb
+        subst hpb
+        have hpad : p ∈ ex ∨ placeholder = some p.2 := by
+          cases placeholder with
+          | none => exact Or.inl hp
+          | some ph =>
+            rcases List.mem_append.mp hp with hp | hp
+            · exact Or.inl hp
+            · right; rw [List.mem_replicate] at hp; rw [hp.2]
+        rcases hpad with hpe | hpp
+        · rcases signLoop_mem C hN hC lookup digest ht nSigs solved _ _ _ hloop p hpe with hm | hm
+          · exact Or.inl (findSignatures_subset C digest nSigs secKeys existing 0 hfind p hm)
+          · exact Or.inr (Or.inr hm)
+        · exact Or.inr (Or.inl hpp)
+      · rw [List.mem_replicate] at hb'
+        exact absurd hb'.2 (by simp)
+
+/-- **Low-S normalisation keeps the signature valid** — from the C01 fact `verify Q z (r, n − s) = verify Q z (r, s)`,
+which is not yet proved upstream and is therefore a hypothesis here. -/
+theorem C05_lowS_preserves_verify_partial (C : Crypto)
+    (hneg : ∀ Q z r s, C.verify Q z r ((C.order : Int) - s) = C.verify Q z r s) (Q : Curve.Pt) (z r s : Int) :
+    C.verify Q z r (lowS C.order s) = C.verify Q z r s := by
+  unfold lowS; split
+  · exact hneg Q z r s
+  · rfl
+
+/-! ## frame -/
+
+/-- what signing must never touch in an input -/
+def frameOf (t : TxIn) : Bytes × Int × Int := (t.prevHash, t.prevIndex, t.sequence)
+
+theorem mem_insertNat (a b : Nat) (l : List Nat) : b ∈ insertNat a l ↔ b = a ∨ b ∈ l := by
+  induction l with
+  | nil => simp [insertNat]
+  | cons c r ih =>
+    simp only [insertNat]
+    split
+    · simp
+    · simp [ih]; constructor
+      · rintro (h | h | h) <;> simp [h]
+      · rintro (h | h | h) <;> simp [h]
+
+theorem mem_sortNat (b : Nat) (l : List Nat) : b ∈ sortNat l ↔ b ∈ l := by
+  induction l with
+  | nil => simp [sortNat]
+  | cons a r ih => simp [sortNat, mem_insertNat, ih]
+
+/-- one pass either leaves the inputs alone or rewrites script and witness of input `idx`, and only when it is not valid -/
+theorem signOne_frame {a : SignArgs} {us : List (Option TxOut)} {ins ins' : List TxIn} {idx : Nat}
+    (h : signOne a us ins idx = .ok ins') :
+    ins'.length = ins.length ∧
+    (∀ j, (j ≠ idx ∨ a.valid idx = true) → ins'[j]? = ins[j]?) ∧
+    (∀ j : Nat, (ins'[j]?).map frameOf = (ins[j]?).map frameOf) := by
+  unfold signOne at h
+  split at h
+  · cases h
+  · rename_i tin htin
+    split at h
+    · cases h; simp
+    · rename_i hv
+      have key : ∀ (t' : TxIn), frameOf t' = frameOf tin →
+          (ins.set idx t').length = ins.length ∧
+          (∀ j, (j ≠ idx ∨ a.valid idx = true) → (ins.set idx t')[j]? = ins[j]?) ∧
+          (∀ j : Nat, ((ins.set idx t')[j]?).map frameOf = (ins[j]?).map frameOf) := by
+        intro t' ht'
+        refine ⟨by simp, ?_, ?_⟩
+        · intro j hj
+          rcases hj with hj | hj
+          · rw [List.getElem?_set_ne (Ne.symm hj)]
+          · exact absurd hj hv
+        · intro j
+          by_cases hj : idx = j
+          · subst hj
+            rw [List.getElem?_set_self' ]
+            simp [htin, ht']
+          · rw [List.getElem?_set_ne hj]
+      split at h <;> simp only [] at h <;> split at h
+      all_goals first
+        | (cases h; exact key _ rfl)
+        | (split at h
+           · cases h; simp
+           · cases h)
+
+theorem signLoopTx_frame {a : SignArgs} {us : List (Option TxOut)} :
+    ∀ (idxs : List Nat) {ins ins' : List TxIn}, signLoopTx a us idxs ins = .ok ins' →
+    ins'.length = ins.length ∧
+    (∀ j, (j ∉ idxs ∨ a.valid j = true) → ins'[j]? = ins[j]?) ∧
+    (∀ j : Nat, (ins'[j]?).map frameOf = (ins[j]?).map frameOf) := by
+  intro idxs
+  induction idxs with
+  | nil => intro ins ins' h; simp [signLoopTx] at h; subst h; simp
+  | cons i r ih =>
+    intro ins ins' h
+    simp only [signLoopTx] at h
+    split at h
+    · cases h
+    · rename_i mid hmid
+      obtain ⟨l1, u1, f1⟩ := signOne_frame hmid
+      obtain ⟨l2, u2, f2⟩ := ih h
+      refine ⟨by omega, ?_, ?_⟩
+      · intro j hj
+        have hj2 : j ∉ r ∨ a.valid j = true := by
+          rcases hj with hj | hj
+          · left; intro hm; exact hj (List.mem_cons_of_mem _ hm)
+          · right; exact hj
+        rw [u2 j hj2]
+        apply u1
+        rcases hj with hj | hj
+        · left; intro he; apply hj; simp [he]
+        · by_cases he : j = i
+          · right; rw [← he]; exact hj
+          · left; exact he
+      · intro j; rw [f2 j, f1 j]
+
+/-- the inputs `Solver.sign` is asked to look at -/
+def chosen (a : SignArgs) (i : Nat) : Prop :=
+  match a.subset with
+  | none => True
+  | some l => i ∈ l
+
+/-- **Frame.**  Signing returns a transaction with the same version, lock time, outputs and number of inputs; every input
+keeps its outpoint and sequence; an input that was not asked for (explicit subset, including the explicitly empty one) or
+that was already valid is returned unchanged, script and witness included. -/
+theorem C05_sign_frame (a : SignArgs) (tx tx' : Tx) (us : List (Option TxOut)) (h : signTx a tx us = .ok tx') :
+    tx'.version = tx.version ∧ tx'.lockTime = tx.lockTime ∧ tx'.outs = tx.outs ∧ tx'.ins.length = tx.ins.length ∧
+    (∀ j : Nat, (tx'.ins[j]?).map frameOf = (tx.ins[j]?).map frameOf) ∧
+    (∀ j, (¬ chosen a j ∨ a.valid j = true) → tx'.ins[j]? = tx.ins[j]?) := by
+  unfold signTx at h
+  simp only at h
+  split at h
+  · cases h
+  · split at h
+    · cases h
+    · rename_i ins hins
+      cases h
+      obtain ⟨l, u, f⟩ := signLoopTx_frame _ hins
+      refine ⟨rfl, rfl, rfl, l, f, ?_⟩
+      intro j hj
+      apply u
+      rcases hj with hj | hj
+      · left
+        unfold chosen at hj
+        split at hj
+        · exact absurd trivial hj
+        · rename_i l' hl'
+          simp only [hl', mem_sortNat]
+          exact hj
+      · right; exact hj
+
+/-- the explicitly empty subset signs nothing at all -/
+theorem C05_sign_frame_empty (a : SignArgs) (tx tx' : Tx) (us : List (Option TxOut)) (hs : a.subset = some [])
+    (h : signTx a tx us = .ok tx') : tx' = tx := by
+  unfold signTx at h
+  simp only [hs, sortNat, signLoopTx] at h
+  split at h
+  · cases h
+  · cases h; rfl
+
 
 end Pycoin.Sign
